@@ -288,6 +288,7 @@ def gen_spec(R, *, n_lf=None, hc=False, small=False, kinds=None, vrl=None, rows=
         seq[origin_pos:origin_pos] = [('origin', i) for i in range(n_origin)]
         frame_channels = {}
         used_names = {}
+        ds_names = {}
         for what, arg in seq:
             kind = what if what != 'other' else arg
             o = {'kind': kind, 'attrs': {}, 'set_name': tag, 'origin_reference': None}
@@ -338,6 +339,18 @@ def gen_spec(R, *, n_lf=None, hc=False, small=False, kinds=None, vrl=None, rows=
                     # a channel, which must then get another data set name), or the first alternative name of this channel
                     nxt = f'{base}{li if n_lf > 1 else ""}{"-" if n_lf > 1 else ""}{len(objs) + 1}'
                     o['dataset_name'] = R.choice([nxt, nxt, o['name'] + '__1'])
+                # (a data set name that is already in use is refused by the library: keep the specification valid)
+                taken = ds_names.setdefault(li, [])
+                if o['dataset_name'] is not None and o['dataset_name'] in taken:
+                    o['dataset_name'] = f'ds_{li}_{len(objs)}'
+                if o['dataset_name'] is not None:
+                    taken.append(o['dataset_name'])
+                else:
+                    auto, k_ = o['name'], 0
+                    while auto in taken:
+                        k_ += 1
+                        auto = f"{o['name']}__{k_}"
+                    taken.append(auto)
                 frame_channels.setdefault(f, []).append(len(objs))
                 skip = {'dimension', 'element_limit', 'axis', 'representation_code'}
                 if not hc and R.random() < 0.3:
